@@ -21,24 +21,33 @@ structure PkgWf (s : Stream) : Prop where
 theorem keepPositive_append (a b : List PSeg) : keepPositive (a ++ b) = keepPositive a ++ keepPositive b := by
   simp [keepPositive, List.filterMap_append]
 
-/-- `sendFileSegmentIterByName(path)` for a clean path: no panic; kept segments = `resolveStream` -/
-theorem sendByName_spec (s : Stream) (hw : PkgWf s) (p : Bytes) (hp : fixStreamName p = p) :
-    ∃ segs, sendByName firstBlock (toPStream s) p = .ok segs ∧ keepPositive segs = resolveStream s p := by
+/-- the integer-range part of `PkgWf` -/
+structure PkgFit (s : Stream) : Prop where
+  sizes : ∀ b ∈ s.blocks, b.size < two63
+  total : streamLen s.blocks < two64
+  inside : ∀ f ∈ s.files, f.pos + f.len ≤ streamLen s.blocks
+
+theorem PkgWf.fit {s : Stream} (h : PkgWf s) : PkgFit s := ⟨h.sizes, h.total, h.inside⟩
+
+/-- `sendFileSegmentIterByName(path)` for any path: no panic; kept segments = `resolveStream` of
+the path `fixStreamName` makes of it -/
+theorem sendByName_gen (s : Stream) (hw : PkgFit s) (p : Bytes) :
+    ∃ segs, sendByName firstBlock (toPStream s) p = .ok segs ∧
+      keepPositive segs = resolveStream s (fixStreamName p) := by
   unfold sendByName resolveStream
-  simp only [hp]
-  have key : ∀ fs : List FTok, (∀ f ∈ fs, f ∈ s.files) →
-      ∃ segs, sendByName.go firstBlock (toPStream s) p fs = .ok segs ∧
+  have key : ∀ (tg : Bytes) (fs : List FTok), (∀ f ∈ fs, f ∈ s.files) →
+      ∃ segs, sendByName.go firstBlock (toPStream s) tg fs = .ok segs ∧
         keepPositive segs = fs.flatMap fun f =>
-          if pathOf s.name f.name = p then resolveTok s.blocks 0 f.pos f.len else [] := by
-    intro fs
+          if pathOf s.name f.name = tg then resolveTok s.blocks 0 f.pos f.len else [] := by
+    intro tg fs
     induction fs with
     | nil => intro _; exact ⟨[], rfl, rfl⟩
     | cons f rest ih =>
       intro hmem
       obtain ⟨segs', h1, h2⟩ := ih (fun x hx => hmem x (List.mem_cons_of_mem _ hx))
       unfold sendByName.go
-      by_cases hm : pathOf s.name f.name = p
-      · have : ¬ ((toPStream s).name ++ bSlash :: f.name ≠ p) := by
+      by_cases hm : pathOf s.name f.name = tg
+      · have : ¬ ((toPStream s).name ++ bSlash :: f.name ≠ tg) := by
           simpa [toPStream, pathOf] using hm
         rw [if_neg this]
         obtain ⟨a, ha1, ha2⟩ := sendTok_spec s.name s.blocks s.files f hw.sizes hw.total
@@ -47,11 +56,17 @@ theorem sendByName_spec (s : Stream) (hw : PkgWf s) (p : Bytes) (hp : fixStreamN
         rw [ha1', h1]
         refine ⟨a ++ segs', rfl, ?_⟩
         rw [keepPositive_append, ha2, h2, List.flatMap_cons, if_pos hm]
-      · have : (toPStream s).name ++ bSlash :: f.name ≠ p := by
+      · have : (toPStream s).name ++ bSlash :: f.name ≠ tg := by
           simpa [toPStream, pathOf] using hm
         rw [if_pos this, List.flatMap_cons, if_neg hm, List.nil_append]
         exact ⟨segs', h1, h2⟩
-  exact key s.files (fun _ h => h)
+  exact key (fixStreamName p) s.files (fun _ h => h)
+
+/-- `sendFileSegmentIterByName(path)` for a clean path: no panic; kept segments = `resolveStream` -/
+theorem sendByName_spec (s : Stream) (hw : PkgWf s) (p : Bytes) (hp : fixStreamName p = p) :
+    ∃ segs, sendByName firstBlock (toPStream s) p = .ok segs ∧ keepPositive segs = resolveStream s p := by
+  have := sendByName_gen s hw.fit p
+  rw [hp] at this; exact this
 
 /-! ### the association list -/
 
